@@ -318,6 +318,108 @@ UNITS["TIMER"] = dict(
     | {"elapsed": dict(params={"label": "L", "total": "bool"}, kind="outcome", outcome_type="T", pre_params=[("now", "T")],
                        attr_map={"timer()": "now"})})
 
+LCTX = "{Sc X Y Z : Type} {SS : ScSig Sc} {LX : LinSig Sc X} {LY : LinSig Sc Y} {LZ : LinSig Sc Z}"
+LOPU = dict(ctors=["LinearOperator", "super().__init__"], mk="mklop",
+            bookkeeping=["input_shape", "output_shape", "input_dtype", "output_dtype", "jit"])
+_lm = lambda **kw: dict(kind="value", decorators_ok=("_wrap_add_sub", "_wrap_mul_div_scalar", "property"), **kw)
+UNITS["LINOP"] = dict(
+    out="C05_Linop", file="scico/linop/_linop.py", classes=["LinearOperator"], context=LCTX, lop=LOPU,
+    self_is="lop X Y", adj_name="l_adj", conj_method="l_conj", prims={"snp.conj": "l_sconj"},
+    bound_methods={"adj": "l_adj", "__call__": "l_eval", "gram": "gram_gen"},
+    imports=["From SV Require Import LinAlg.GenSig."],
+    methods={
+        "_set_gram": dict(kind="closure", closure_attr="_gram", coqname="gram_closure"),
+        "gram": _lm(params={"x": "X"}, attr_map={"self._gram": "(gram_closure_gen self_)"},
+                    skip_stmts=["if self._gram is None:\n    self._set_gram()", "assert self._gram is not None"]),
+        "__add__": _lm(params={"other": "lop X Y"}),
+        "__sub__": _lm(params={"other": "lop X Y"}),
+        "__mul__": _lm(params={"other": "Sc"}),
+        "__rmul__": _lm(params={"other": "Sc"}),
+        "__truediv__": _lm(params={"other": "Sc"}),
+        "T": _lm(pre_params=[("cplx", "bool")], attr_map={"is_complex_dtype(self.input_dtype)": "cplx"}),
+        "H": _lm(),
+        "conj": _lm(),
+        "gram_op": _lm(skip_stmts=["if self._gram is None:\n    self._set_gram()"]),
+    })
+UNITS["LINOP_COMP"] = dict(
+    out="C05_LinopComp", file="scico/linop/_linop.py", classes=["ComposedLinearOperator"], context=LCTX, lop=LOPU,
+    adj_name="l_adj", imports=["From SV Require Import LinAlg.GenSig."],
+    methods={"__init__": dict(params={"A": "lop Y Z", "B": "lop X Y", "jit": "bool"}, kind="value", coqname="compose",
+                              slice=("super().__init__(", None), require_stmts=["self.A = A", "self.B = B"], force_params=["A", "B"],
+                              attr_map={"self.A": "v_A", "self.B": "v_B"})})
+UNITS["LINOP_NEG"] = dict(
+    out="C05_LinopNeg", file="scico/operator/_operator.py", classes=["Operator"], context=LCTX,
+    self_is="lop X Y", imports=["From SV Require Import LinAlg.GenSig."], requires=["C05_Linop"],
+    methods={"__neg__": dict(kind="value", attr_map={"-1.0 * self": "(__rmul___gen self_ l_m1)"})})
+
+DCTX = "{Sc V : Type} {DS : DiagSig Sc V}"
+_VC = {"Diagonal": dict(value="diagonal", bookkeeping=["input_shape", "input_dtype"]),
+       "ScaledIdentity": dict(value="scalar", bookkeeping=["input_shape", "input_dtype"])}
+_dm = lambda **kw: dict(kind="value", decorators_ok=("_wrap_add_sub", "_wrap_mul_div_scalar", "property"), **kw)
+_SH = {"self.diagonal.shape == other.diagonal.shape": True, "self.shape == other.shape": True,
+       "self.input_shape == other.input_shape": True, "self.shape != other.shape": False}
+UNITS["DIAG"] = dict(
+    out="C05_Diag", file="scico/linop/_diag.py", classes=["Diagonal"], context=DCTX, value_ctors=_VC,
+    self_is="V", conj_method="hconj", imports=["From SV Require Import LinAlg.GenSig."],
+    methods={
+        "conj": _dm(attr_map={"self.diagonal": "self_"}),
+        "T": _dm(), "H": _dm(),
+        "gram_op": _dm(attr_map={"self.diagonal": "self_"}),
+        "__add__": _dm(params={"other": "V"}, static_tests=_SH, attr_map={"self.diagonal": "self_", "other.diagonal": "v_other"}),
+        "__sub__": _dm(params={"other": "V"}, static_tests=_SH, attr_map={"self.diagonal": "self_", "other.diagonal": "v_other"}),
+        "__mul__": _dm(params={"scalar": "Sc"}, attr_map={"self.diagonal": "self_"}),
+        "__truediv__": _dm(params={"scalar": "Sc"}, attr_map={"self.diagonal": "self_"}),
+        "__matmul__": _dm(params={"other": "V"}, static_tests=dict(_SH, **{"isinstance(other, Diagonal)": True}),
+                          attr_map={"self.diagonal": "self_", "other.diagonal": "v_other"}),
+    })
+_SA = {"self._diagonal": "self_", "other._diagonal": "v_other", "other.diagonal": "v_other"}
+UNITS["SCALEDID"] = dict(
+    out="C05_ScaledId", file="scico/linop/_diag.py", classes=["ScaledIdentity"], context=DCTX, value_ctors=_VC,
+    self_is="Sc", conj_method="hconj", imports=["From SV Require Import LinAlg.GenSig."],
+    methods={
+        "conj": _dm(attr_map=_SA), "gram_op": _dm(attr_map=_SA),
+        "__add__": _dm(params={"other": "Sc"}, static_tests=_SH, attr_map=_SA),
+        "__sub__": _dm(params={"other": "Sc"}, static_tests=_SH, attr_map=_SA),
+        "__mul__": _dm(params={"scalar": "Sc"}, attr_map=_SA),
+        "__truediv__": _dm(params={"scalar": "Sc"}, attr_map=_SA),
+        "__matmul__": _dm(params={"other": "Sc"}, coqname="matmul_scaled", attr_map=_SA,
+                          static_tests=dict(_SH, **{"isinstance(other, Diagonal)": True, "isinstance(other, ScaledIdentity)": True})),
+    })
+UNITS["SCALEDID_DIAG"] = dict(
+    out="C05_ScaledIdDiag", file="scico/linop/_diag.py", classes=["ScaledIdentity"], context=DCTX, value_ctors=_VC,
+    self_is="Sc", imports=["From SV Require Import LinAlg.GenSig."],
+    methods={"__matmul__": _dm(params={"other": "V"}, coqname="matmul_diag", attr_map=_SA,
+                               static_tests=dict(_SH, **{"isinstance(other, Diagonal)": True, "isinstance(other, ScaledIdentity)": False}))})
+
+KCTX = ("{Sc Hk X Y : Type} {SS : ScSig Sc} {DK : DiagSig Sc Hk} {LX : LinSig Sc X} {LY : LinSig Sc Y}")
+_KB = ["input_shape", "input_dtype", "mode", "output_shape"]
+
+
+def _conv(out, cls, ker):
+    """Convolve / ConvolveByX overrides: the new kernel and the explicit adjoint closure"""
+    am = {f"self.{ker}": "(k_ker self_)", f"other.{ker}": "(k_ker v_other)"}
+    st = {"self.mode != other.mode": False, f"self.{ker}.shape == other.{ker}.shape": True}
+    return dict(out=out, file="scico/linop/_convolve.py", classes=[cls], context=KCTX, self_is="kop Hk X Y",
+                adj_name="k_adj", prims={"snp.conj": "l_sconj"}, imports=["From SV Require Import LinAlg.GenSig."],
+                value_ctors={cls: dict(value=[ker, "adj_fn"], mk="mkkop", bookkeeping=_KB)},
+                methods={"__add__": _dm(params={"other": "kop Hk X Y"}, static_tests=st, attr_map=am),
+                         "__sub__": _dm(params={"other": "kop Hk X Y"}, static_tests=st, attr_map=am),
+                         "__mul__": _dm(params={"scalar": "Sc"}, attr_map=am),
+                         "__truediv__": _dm(params={"scalar": "Sc"}, attr_map=am)})
+
+
+UNITS["CONV"] = _conv("C05_Conv", "Convolve", "h")
+UNITS["CONVX"] = _conv("C05_ConvX", "ConvolveByX", "x")
+_CA = {"self.h_dft": "self_", "other.h_dft": "v_other"}
+UNITS["CIRC"] = dict(
+    out="C05_Circ", file="scico/linop/_circconv.py", classes=["CircularConvolve"], context=DCTX, self_is="V",
+    imports=["From SV Require Import LinAlg.GenSig."],
+    value_ctors={"CircularConvolve": dict(value="h", bookkeeping=["input_shape", "input_dtype", "ndims", "h_is_dft"])},
+    methods={"__add__": _dm(params={"other": "V"}, static_tests={"self.ndims != other.ndims": False}, attr_map=_CA),
+             "__sub__": _dm(params={"other": "V"}, static_tests={"self.ndims != other.ndims": False}, attr_map=_CA),
+             "__mul__": _dm(params={"scalar": "Sc"}, attr_map=_CA),
+             "__truediv__": _dm(params={"scalar": "Sc"}, attr_map=_CA)})
+
 
 class Env:
     def __init__(self):
@@ -393,6 +495,8 @@ class Tr:
         return f"s.({self.prefix}_{a})"
 
     def cur_state(self, env):
+        if self.u.get("self_is"):
+            return "self_"
         if self.u.get("opaque"):
             return "s"
         return "(mk_st " + " ".join(self.rd(a, env) for a in self.fields) + ")"
@@ -426,6 +530,8 @@ class Tr:
 
     # -- static None-ness of optional parameters
     def static(self, e, env):
+        if ast.unparse(e) in self.m.get("static_tests", {}):
+            return self.m["static_tests"][ast.unparse(e)]   # bookkeeping / dispatch fixed by the unit (sliced away explicitly)
         if isinstance(e, ast.Call) and ast.unparse(e.func) == "isinstance" and len(e.args) == 2 \
                 and isinstance(e.args[0], ast.Name) and e.args[0].id in env.shape \
                 and ast.unparse(e.args[1]) in ("(list, tuple)", "list", "(tuple, list)"):
@@ -476,10 +582,12 @@ class Tr:
                 self.bad(e, "use of a loop counter as a value")
             if e.id in env.names:
                 return f"(oget {env.names[e.id]})" if e.id in env.optnames else env.names[e.id]
-            if e.id == "self" and self.u.get("self_is_func"):
+            if e.id == "self" and (self.u.get("self_is_func") or self.u.get("self_is")):
                 return "self_"
             self.bad(e, "unknown name")
         if isinstance(e, ast.Attribute):
+            if self.is_self(e) and e.attr in self.u.get("bound_methods", {}):
+                return f"({self.u['bound_methods'][e.attr]} self_)"        # a bound method used as a value
             if self.is_self(e):
                 if e.attr in env.attr_plain:
                     return env.attr_plain[e.attr]
@@ -653,6 +761,27 @@ class Tr:
         f, fs, n = e.func, ast.unparse(e.func), len(e.args)
         if any(isinstance(a, ast.Starred) for a in e.args):
             self.bad(e, "star argument")
+        if fs in self.u.get("value_ctors", {}) and n == 0:
+            vc = self.u["value_ctors"][fs]
+            kw = {k.arg: k.value for k in e.keywords}
+            vals = vc["value"] if isinstance(vc["value"], list) else [vc["value"]]
+            if None in kw or not set(vals) <= set(kw) or set(kw) - set(vals) - set(vc["bookkeeping"]):
+                self.bad(e, "constructor keywords")
+            if isinstance(vc["value"], list):
+                return "(" + " ".join([vc["mk"]] + [X(kw[v]) for v in vals]) + ")"
+            return X(kw[vc["value"]])       # the object is represented by its defining array / scalar
+        if self.u.get("lop") and fs in self.u["lop"]["ctors"] and n == 0:
+            # LinearOperator(eval_fn=..., adj_fn=..., <shape / dtype / jit bookkeeping: C12, not translated>)
+            kw = {k.arg: k.value for k in e.keywords}
+            if None in kw or not {"eval_fn", "adj_fn"} <= set(kw) or \
+                    set(kw) - {"eval_fn", "adj_fn"} - set(self.u["lop"]["bookkeeping"]):
+                self.bad(e, "operator constructor keywords")
+            return f"({self.u['lop']['mk']} {X(kw['eval_fn'])} {X(kw['adj_fn'])})"
+        if self.u.get("lop") and isinstance(f, ast.Name) and f.id == "self" and n == 1 and not e.keywords:
+            return f"(hcall self_ {X(e.args[0])})"                      # self(x)
+        if self.u.get("conj_method") and isinstance(f, ast.Attribute) and f.attr == "conj" and n == 0 and not e.keywords \
+                and not (isinstance(f.value, ast.Name) and f.value.id == "self"):
+            return f"({self.u['conj_method']} {X(f.value)})"             # x.conj()
         if fs == "list" and n == 1 and not e.keywords and isinstance(e.args[0], ast.Call) \
                 and isinstance(e.args[0].func, ast.Attribute) and e.args[0].func.attr == "keys" and not e.args[0].args \
                 and self.is_self(e.args[0].func.value) and e.args[0].func.value.attr in self.u.get("dict_attrs", []):
@@ -772,7 +901,7 @@ class Tr:
             recv, a = f.value, f.attr
             # adjoint spellings: C.adj(y), C.H(y), C.conj().T(y)
             if a in ("adj", "H") and n == 1 and not e.keywords:
-                return f"(adj {X(recv)} {X(e.args[0])})"
+                return f"({self.u.get('adj_name', 'adj')} {X(recv)} {X(e.args[0])})"
             if a == "T" and isinstance(recv, ast.Call) and isinstance(recv.func, ast.Attribute) \
                     and recv.func.attr == "conj" and not recv.args and not recv.keywords \
                     and n == 1 and not e.keywords:
@@ -929,6 +1058,8 @@ class Tr:
         if not stmts:
             return k(env)
         st, rest = stmts[0], stmts[1:]
+        if ast.unparse(st) in self.m.get("skip_stmts", []):
+            return self.block(rest, env, k)
         cont = lambda ev: self.block(rest, ev, k)
         if isinstance(st, ast.Expr):
             if isinstance(st.value, ast.Constant) and isinstance(st.value.value, str):
@@ -936,6 +1067,9 @@ class Tr:
             if ast.unparse(st.value) == "super().__init__(**kwargs)":
                 return cont(env)   # base Optimizer bookkeeping (C15), no solver state
             c_ = st.value
+            if self.u.get("lop") and isinstance(c_, ast.Call) and ast.unparse(c_.func) in self.u["lop"]["ctors"] \
+                    and ast.unparse(c_.func).startswith("super()") and not rest:
+                return self.expr(c_, env)        # the object under construction IS this operator
             if self.u.get("dicts") and isinstance(c_, ast.Call) and isinstance(c_.func, ast.Attribute) \
                     and c_.func.attr == "update" and isinstance(c_.func.value, ast.Name) and c_.func.value.id in env.names \
                     and c_.func.value.id not in env.optnames and len(c_.args) == 1 and not c_.keywords:
@@ -1361,7 +1495,11 @@ def translate_method(unit, fn, tree, path, spec, helpers):
         raise Unsupported(fn, fdef, "signature")
     if a.kwarg and a.kwarg.arg != "kwargs":
         raise Unsupported(fn, fdef, "signature")
-    if any(ast.unparse(d) not in ("staticmethod", "jit") for d in fdef.decorator_list):
+    for rq in spec.get("require_stmts", []):
+        if not any(ast.unparse(x) == rq for x in fdef.body):
+            raise Unsupported(fn, fdef, f"required statement `{rq}` not found")
+    if any(ast.unparse(d) not in ("staticmethod", "jit") + tuple(spec.get("decorators_ok", ()))
+           for d in fdef.decorator_list):
         raise Unsupported(fn, fdef, "decorator")
     pnames = [p.arg for p in a.args if p.arg != "self"] + [p.arg for p in a.kwonlyargs]
     ndef = len(a.defaults)
@@ -1378,7 +1516,7 @@ def translate_method(unit, fn, tree, path, spec, helpers):
         if i0 is None or i1 < i0:
             raise Unsupported(fn, fdef, f"slice markers {lo!r}..{hi!r} not found")
         body = body[i0:i1]
-        mentioned = {n.id for s in body for n in ast.walk(s) if isinstance(n, ast.Name)}
+        mentioned = {n.id for s in body for n in ast.walk(s) if isinstance(n, ast.Name)} | set(spec.get("force_params", []))
         used = [p for p in pnames if p in mentioned]
     for p in used:
         if p not in ptypes:
@@ -1424,9 +1562,21 @@ def translate_method(unit, fn, tree, path, spec, helpers):
         sarg = " (s : st)" if unit.get("fields") else (f" (s : {unit['opaque']})" if unit.get("opaque") else "")
         if unit.get("self_is_func"):
             sarg = f" (self_ : {unit['self_is_func']})"
+        if unit.get("self_is"):
+            sarg = f" (self_ : {spec.get('self_type') or unit['self_is']})" if not spec.get("no_self") else ""
         pty = lambda p: (spec["shapes"][p][shape_of[p]] if p in shape_of else ptypes[p])
         args = "".join(f" (v_{p} : {pty(p)})" for p in used if p not in optional or p in given)
-        if spec["kind"] == "outcome":
+        if spec["kind"] == "closure":
+            # the method consists of `self.<attr> = <lambda>`: the definition is that closure
+            body = [b_ for b_ in body if not (isinstance(b_, ast.Expr) and isinstance(b_.value, ast.Constant))]
+            if len(body) != 1 or not isinstance(body[0], ast.Assign) or not Tr.is_self(body[0].targets[0], spec["closure_attr"]):
+                raise Unsupported(fn, fdef, f"expected the single statement self.{spec['closure_attr']} = <lambda>")
+            body = [ast.Return(value=body[0].value)]
+            spec = dict(spec, kind="value")
+            tr.m = spec
+            def k(ev, fdef=fdef):
+                raise Unsupported(fn, fdef, "path without return")
+        elif spec["kind"] == "outcome":
             k = lambda ev, tr=tr: f"({tr.cur_state(ev)}, @PyNone {spec['outcome_type']})"
         elif spec["kind"] == "effect":
             k = lambda ev: "(s, false, None)"
